@@ -111,8 +111,9 @@ class World:
             a.append("--allow-unregulated-fixed-port-id")
         if opts.get("auditing"):
             a.append("--embed-auditing-info")
-        for c in opts.get("configs", []):
-            a += ["--configuration", c]
+        if opts.get("configs"):
+            # (--configuration takes any number of values: another flag has to follow before the positional argument)
+            a += ["--configuration"] + list(opts["configs"]) + ["--verbose"]
         a += opts.get("extra_argv", [])
         if opts.get("root") is not None:
             a.append(self.spell(os.path.join(self.in_dir, opts["root"]), opts.get("in_spelling", "abs")))
